@@ -5,6 +5,7 @@ pub mod c04;
 pub mod c05;
 pub mod c06;
 pub mod c07;
+pub mod c08;
 pub mod c09;
 pub mod c10;
 pub mod c11;
@@ -42,6 +43,7 @@ pub fn run(id: &str, tier: Tier, seed: u64) -> Option<i32> {
         "C05" => Some(c05::run(tier, seed)),
         "C06" => Some(c06::run(tier, seed)),
         "C07" => Some(c07::run(tier, seed)),
+        "C08" => Some(c08::run(tier, seed)),
         "C09" => Some(c09::run(tier, seed)),
         "C13" => Some(c13::run(tier, seed)),
         "C14" => Some(c14::run(tier, seed)),
@@ -60,6 +62,7 @@ pub fn replay(id: &str, v: &serde_json::Value) -> Result<Option<String>, String>
     match id {
         "C06" => c06::replay(v),
         "C07" => c07::replay(v),
+        "C08" => c08::replay(v),
         "C09" => c09::replay(v),
         "C13" => c13::replay(v),
         "C14" => c14::replay(v),
